@@ -23,12 +23,12 @@ from checks.c14 import texts_for
 
 THEOREMS = ["Grc.Ver.bump_ge", "Grc.Ver.bump_reach", "Grc.Ver.version_ge_requested", "Grc.Ver.declared_version_conforms", "Grc.Ver.afterPassConstraints_ok", "Grc.Ver.afterPassConstraints_ge",
             "Grc.Ver.glat_gloc_switch_together"]
-REQ = {"": "default", "-v2": 0x00020000, "-v3": 0x00030000, "-v4": 0x00040000, "-v5": 0x00050000}
+REQ = {"": "default", "-v1": 0x00010000, "-v2": 0x00020000, "-v3": 0x00030000, "-v4": 0x00040000, "-v5": 0x00050000}
 
 
 def shape_key(face, t, feats=None):
     s = face.shape(t, feats=feats)
-    return None if s is None else [(x["gid"], x["before"], x["after"], round(x["x"], 2)) for x in s]
+    return None if s is None else ([(x["gid"], x["before"], x["after"], round(x["x"], 2)) for x in s], list(face.last_break_weights))
 
 
 def run(tier, seed, replay=None):
@@ -44,7 +44,25 @@ def run(tier, seed, replay=None):
     trng = random.Random(seed + 1515)
     FEAT = ('table(feature) fz { id = 1234; name.1033 = string("Z"); default = 0; settings { off { value = 0; name.1033 = string("off"); } '
             'on { value = 1; name.1033 = string("on"); } } } endtable;\n')
-    for ci, (name, prog) in enumerate(cases):
+    # one program whose glyph attribute data is larger than 65535 bytes but compresses to less: the form of the Gloc offsets
+    # (16 or 32 bits) goes by the data the offsets index, not by the bytes of the table in the file; its rule reads
+    # attributes of the last glyphs (it sits at index 36, where none of the rewritings below applies)
+    import ttf as _ttf
+    bigp = gen.Prog()
+    bigp.nglyphs = 1100
+    bigp.font, _g, bigp.cmap = _ttf.simple_font(1100)
+    bigp.classes = {"cLate": list(range(1080, 1090)), "cAll": [2, 3, 4, 5]}
+    bigp.raw_gdl = ('#include "stddef.gdh"\ntable(glyph) cAll = glyphid(2..1090) {lift = 300m; %s}; cLate = glyphid(1080..1089); endtable;\n'
+                    'table(pos) cLate {shift.y = lift; advance.x = a27 * 3 + a03}; endtable;\n' % "; ".join("a%02d = %d" % (j, 100 + j) for j in range(28)))
+    cases = [(nm, pr) for nm, pr in cases]
+    BIG_INDEX = 36
+    while len(cases) < BIG_INDEX:
+        cases.append(None)
+    cases.insert(BIG_INDEX, ("big_glat", bigp)) if len(cases) >= BIG_INDEX else None
+    for ci, case in enumerate(cases):
+        if case is None:
+            continue
+        name, prog = case
         d = os.path.join(work, name)
         os.makedirs(d)
         feature_gated = (ci % 3 == 1)
@@ -121,6 +139,8 @@ def run(tier, seed, replay=None):
                 for p in ("", "-p"):
                     if p and (tier == "quick") and v not in ("", "-v2"):
                         continue
+                    if p and v == "-v1":
+                        continue    # a real Silf 1.0 table: neither the strict decoder nor libgraphite2 1.3.14 reads that layout
                     key = " ".join(x for x in (v, c, p) if x) or "default"
                     out = "o_%s.ttf" % key.replace(" ", "").replace("-", "") 
                     rc, log, _ = common.run_grc(build, d, ["-q"] + [x for x in (v, c, p) if x] + ["p.gdl", "in.ttf", out])
@@ -177,7 +197,7 @@ def run(tier, seed, replay=None):
             distinct.add((k, s["version"]))
         # (c) compressed = plain
         for v in REQ:
-            if feature_gated and v in ("-v2", "-v3"):
+            if feature_gated and v in ("-v1", "-v2", "-v3"):
                 continue   # an explicit request below 3.1 moves the pass constraints into the rules: no plain twin at 5.0
             for p in ("", "-p"):
                 kc = " ".join(x for x in (v, "-c", p) if x)
